@@ -43,6 +43,29 @@ def gen_cases(tier, seed):
                           "cost": 8 if "umnn" in fam else 2})
             if "actnorm" in str(cfg) and fam != "actnorm":
                 cases.append(dict(cases[-1], warm=False, policy="fresh"))
+    # scalar events: a batch of shape [N] (nothing to reduce per row - a reduction over "all remaining" axes sums the batch)
+    for fi, fam in enumerate(("exp", "tanh", "sigmoid", "leakyrelu", "cauchycdf", "logtanh", "logit", "cauchycdfinv")):
+        cfg = dict(zoo.FAM[fam].must()[0], shape=[])
+        cases.append({"kind": "transform", "cfg": cfg, "policy": "fresh", "warm": True, "seed": env.subseed(seed, "c12s", fam),
+                      "world": "f64", "cost": 1})
+        cases.append({"kind": "transform", "cfg": {"fam": "composite", "shape": [], "ctx": 0, "parts": [cfg, dict(zoo.FAM["leakyrelu"].must()[0], shape=[])]},
+                      "policy": "fresh", "warm": True, "seed": env.subseed(seed, "c12sc", fam), "world": "f64", "cost": 1})
+    # conditioners with dropout / batch norm inside (library residual nets, 2-D and image): off in evaluation mode
+    k = 0
+    for fam in ("coupling_affine", "coupling_rq", "ar_affine"):
+        for image in ((False, True) if fam.startswith("coupling") else (False,)):
+            for opt in ({"dropout": 0.3}, {"net_bn": True}, {"dropout": 0.5, "net_bn": True}):
+                cfg = None
+                for _ in range(50):
+                    cfg = zoo.FAM[fam].sample_cfg(rng, tier)
+                    if (len(cfg["shape"]) == 3) == image:
+                        break
+                cfg = dict(cfg, **opt)
+                if "net" in cfg:
+                    cfg["net"] = "resnet"
+                cases.append({"kind": "transform", "cfg": cfg, "policy": "randn1", "warm": True,
+                              "seed": env.subseed(seed, "c12do", k), "world": "f64", "cost": 2})
+                k += 1
     for i in range(40 if tier == "quick" else 4000):
         cases.append({"kind": "flow", "cfg": dzoo.sample_flow_cfg(rng), "seed": env.subseed(seed, "c12f", i), "world": "f64",
                       "warm": i % 3 != 0, "cost": 3})
